@@ -422,15 +422,28 @@ _DIM_ATTR = ("coil_dim", "spatial_dims", "complex_dim")
 
 
 def _literal_attrs(cls: _ast.ClassDef):
+    """`self.<…dim…> = <literal>` or `= <constructor parameter with a literal default>` anywhere in the class"""
     out = {}
-    for n in _ast.walk(cls):
-        if isinstance(n, _ast.Assign) and len(n.targets) == 1 and isinstance(n.targets[0], _ast.Attribute) \
-                and isinstance(n.targets[0].value, _ast.Name) and n.targets[0].value.id == "self" \
-                and any(k in n.targets[0].attr for k in _DIM_ATTR):
-            try:
-                out[n.targets[0].attr] = _ast.literal_eval(n.value)
-            except Exception:  # noqa: BLE001
-                pass
+    for fn in [n for n in cls.body if isinstance(n, _ast.FunctionDef)]:
+        defaults = {}
+        a = fn.args
+        pos = a.posonlyargs + a.args
+        for arg, d in zip(pos[len(pos) - len(a.defaults):], a.defaults):
+            defaults[arg.arg] = d
+        for arg, d in zip(a.kwonlyargs, a.kw_defaults):
+            if d is not None:
+                defaults[arg.arg] = d
+        for n in _ast.walk(fn):
+            if isinstance(n, _ast.Assign) and len(n.targets) == 1 and isinstance(n.targets[0], _ast.Attribute) \
+                    and isinstance(n.targets[0].value, _ast.Name) and n.targets[0].value.id == "self" \
+                    and any(k in n.targets[0].attr for k in _DIM_ATTR):
+                v = n.value
+                if isinstance(v, _ast.Name) and v.id in defaults:
+                    v = defaults[v.id]
+                try:
+                    out[n.targets[0].attr] = _ast.literal_eval(v)
+                except Exception:  # noqa: BLE001
+                    pass
     return out
 
 
@@ -609,10 +622,15 @@ def _callsite_expr_case(T, rec, seed):
         x = _ints(r, shape[:d] + shape[d + 1:] + [2], -4, 4)
         got = cm(x.unsqueeze(d), S) if rec["unsq_index"] == 0 else cm(S, x.unsqueeze(d))
         ref = T.expand_operator(x, S, dim=d)
+    bad = []
     if got.shape != ref.shape or not torch.equal(got, ref):
-        return [("callsite/expression-mismatch", f"{rec['file']}:{rec['line']} `{rec['src']}` over axis {d} differs from "
-                                                 f"{'reduce' if rec['kind'] == 'reduce-like' else 'expand'}_operator")], None
-    return [], None
+        bad.append(("callsite/expression-mismatch", f"{rec['file']}:{rec['line']} `{rec['src']}` over axis {d} differs from "
+                                                    f"{'reduce' if rec['kind'] == 'reduce-like' else 'expand'}_operator"))
+    declared = rec["attrs"].get("_coil_dim", rec["attrs"].get("coil_dim"))
+    if isinstance(declared, int) and declared != d:
+        bad.append(("callsite/expression-dim", f"{rec['file']}:{rec['line']} `{rec['src']}` sums / expands over axis {d} but class "
+                                               f"{rec['cls']} declares the coil axis {declared}"))
+    return bad, None
 
 
 def _native_case(T, seed):
